@@ -679,8 +679,10 @@ def r04f(ctx):
                     continue
                 sp = ('param', reg.fn.params[0])
                 used = set()
+                from ..util import resolve_namedtuples
                 for p in returning(paths(repo, reg.fn)):
-                    for x in subterms(p.retval):
+                    # fields of a record built from the spec: only the ones the result reads
+                    for x in subterms(resolve_namedtuples(repo, p.retval)):
                         if x[0] == 'sub' and x[1] == sp and x[2][0] == 'const':
                             used.add(x[2][1])
                 n += 1
